@@ -29,7 +29,7 @@ REPORT = ['modules', 'evaluations', 'byte_comparisons', 'model_undecided', 'equa
           'setof_reordered', 'default_omitted', 'high_tag', 'long_length', 'not_accepted_by_checks', 'carved_out']
 FLOORS = {'quick': {'byte_comparisons': 15000, 'set_reordered': 50, 'setof_reordered': 50},
           'thorough': {'byte_comparisons': 60000, 'set_reordered': 200, 'setof_reordered': 200}}
-TIMEOUT = {'quick': 1800, 'thorough': 14000}
+TIMEOUT = {'quick': 1800, 'thorough': 5400}
 
 
 def shards(tier):
